@@ -140,6 +140,34 @@ Theorem C08_accepted_log_leaves_nothing_pending : forall tr, accepts tr = true -
 Proof. exact accepted_all_settled. Qed.
 Print Assumptions C08_accepted_log_leaves_nothing_pending.
 
+(* ---- each registration delivers at most one snapshot: in EVERY run of the LTS the snapshot step of a plugin
+   instance occurs at most once (a registration whose synchronisation failed is not synchronised a second time;
+   nor is a registered one), and what it is sent has no duplicates.  The executable predicate exactly_once_b
+   demands the same of the implementation: po_snapshot is EVERYTHING an instance was sent in Synchronize
+   requests, and must be duplicate-free ---- *)
+Theorem C08_one_snapshot_per_registration : forall l s p, steps init l = Some s ->
+  count_occ action_eq_dec l (APSnapshot p) <= 1.
+Proof. exact one_snapshot_per_registration. Qed.
+Print Assumptions C08_one_snapshot_per_registration.
+
+Theorem C08_snapshot_without_duplicates : forall s p, reachable s -> NoDup (snapshot_of s p) /\ NoDup (store s).
+Proof. exact snapshot_without_duplicates. Qed.
+Print Assumptions C08_snapshot_without_duplicates.
+
+(* a runtime that, after a failed synchronisation, synchronises the same instance again is rejected by the replay,
+   and an instance that was sent container "c1" in two snapshots fails the predicate *)
+Example C08_rejects_second_snapshot :
+  accepts [ LBlockAcq "g"; LCreateRet "g" "c1"; LStore "g" "c1"; LBlockRel "g";
+            LSyncEnter "p" ["c1"]; LSyncRecv "p" ["c1"]; LSyncRet "p" false;
+            LSyncEnter "p" ["c1"]; LSyncRecv "p" ["c1"]; LSyncRet "p" true ] = false.
+Proof. vm_compute. reflexivity. Qed.
+Example C08_two_snapshots_not_exactly_once :
+  exactly_once_b {| ob_store := ["c1"];
+                    ob_plugins := [ {| po_name := "p"; po_registered := true; po_snapshot := ["c1"; "c1"]; po_creates := [] |} ] |} = false
+  /\ exactly_once_b {| ob_store := ["c1"];
+                    ob_plugins := [ {| po_name := "p"; po_registered := true; po_snapshot := ["c1"]; po_creates := [] |} ] |} = true.
+Proof. split; vm_compute; reflexivity. Qed.
+
 (* ---- a pending registration does not age.  The model has no clock and no deadline: the time a registration
    waits for the exclusive section is the number of steps the others take meanwhile.  For EVERY list of steps
    (of any length, of any kind) that does not contain the waiting plugin's own acquire: it is still waiting, and
